@@ -327,6 +327,20 @@ def _pos(n):
         return None
 
 
+def _other_branch(cs, a, x):
+    """is the assignment `a` in one branch of an `if` and the read `x` in the other (so the assignment never precedes the read
+    on a path)?"""
+    for i in nodes(cs.body, "If"):
+        t, e = i.get("t"), i.get("e")
+        if t is None or e is None:
+            continue
+        in_t = lambda n_: any(y is n_ for y in nodes(t))
+        in_e = lambda n_: any(y is n_ for y in nodes(e))
+        if (in_t(a) and in_e(x)) or (in_e(a) and in_t(x)):
+            return True
+    return False
+
+
 def _binding_sites(cs, e, depth=0, out=None, ancestors=True, visited=None):
     """ids of the destructuring sites (`(tok, span, ctx) = c.eat()`, `(ctx, node) = parse(c)?`) through which the value of
     expression e was obtained, following plain lets and - for a `let mut` - the assignments that textually precede the
@@ -351,7 +365,7 @@ def _binding_sites(cs, e, depth=0, out=None, ancestors=True, visited=None):
         here = _pos(x)
         for a in cs.assign_nodes.get(x["hid"], []):
             ap = _pos(a)
-            if here is not None and ap is not None and ap < here:
+            if here is not None and ap is not None and ap < here and not _other_branch(cs, a, x):
                 _binding_sites(cs, a["r"], depth + 1, out, ancestors, visited)
         if o is None or o.get("src") is None:
             continue
